@@ -40,6 +40,19 @@ def deviations(chk):
                 print("%-16s %-12s violated=%s %s" % (dev, model, viol, "ok" if ok else "NOT REPRODUCED"), flush=True)
                 if not ok:
                     bad += 1
+        # design-level observations: configurations that are EXPECTED to violate an invariant of the model although
+        # the library satisfies every listed property (documented in DESIGN.md 14.9)
+        for tla, cfg, inv, what in [("MC_Link.tla", "MC_Link_reassign.cfg", "EidAgreement",
+                                     "a late duplicate of an earlier Set Endpoint ID undoes a later Force (no replay protection)")]:
+            md = os.path.join(w, "md-obs")
+            rc, out = chk.java(["-workers", "4", "-metadir", md, "-cleanup", "-noGenerateSpecTE", "-config", cfg, tla],
+                               w, timeout=900, xmx="4g", serial=False)
+            shutil.rmtree(md, ignore_errors=True)
+            viol = re.findall(r"Invariant (\w+) is violated", out)
+            ok = inv in viol
+            print("observation  %-28s violated=%s %s  (%s)" % (cfg, viol, "as documented" if ok else "NOT AS DOCUMENTED", what), flush=True)
+            if not ok:
+                bad += 1
         print("deviations: %d not reproduced" % bad)
         return 0 if bad == 0 else 1
     finally:
